@@ -105,11 +105,20 @@ func c09Close(x *mc.Cell, r Role) {
 						if closes < 1 {
 							x.Violate("C09", sig("transport-not-closed"), ctx, rep)
 						}
-						if cleanups != 1 {
-							x.Violate("C09", sig(fmt.Sprintf("transport-cleanups=%d", cleanups)), "transport resources are released exactly once per ending: "+ctx, rep)
-						}
-						if un := len(n.Net.Unprotects) - unprot0; un != 1 {
-							x.Violate("C09", sig(fmt.Sprintf("unprotects=%d", un)), "the peer connection is un-protected exactly once per ending: "+ctx, rep)
+						un := len(n.Net.Unprotects) - unprot0
+						if sendFails {
+							// the failed cancel message is reported as a network-error notice that may land inside the
+							// cleanup window and re-enter the cleanup status (weak form of DESIGN 5/C09): count >= 1, equal
+							if cleanups < 1 || cleanups != un {
+								x.Violate("C09", sig(fmt.Sprintf("transport-cleanups=%d;unprotects=%d", cleanups, un)), "transport release and un-protect must happen (the same number of times) for the ending: "+ctx, rep)
+							}
+						} else {
+							if cleanups != 1 {
+								x.Violate("C09", sig(fmt.Sprintf("transport-cleanups=%d", cleanups)), "transport resources are released exactly once per ending: "+ctx, rep)
+							}
+							if un != 1 {
+								x.Violate("C09", sig(fmt.Sprintf("unprotects=%d", un)), "the peer connection is un-protected exactly once per ending: "+ctx, rep)
+							}
 						}
 					})
 				}
